@@ -10,6 +10,10 @@ CLAIMED = {
          "Every operation method is executed twice, on wholly known operands and on operands weakened to admitting unknowns (sampled at every depth, plus a fixed catalogue x every single-position weakening x every refinement kind, enumerated completely); an oracle over the two results decides 'admits'. Held-on-observed-executions is the level this family can give for an all-inputs quantifier.",
          "Trusts mon.Admits (weakest reading; infinite bounds = unset), the generators' claim that each weakening admits what it replaces, math/big. Says nothing about operand shapes the generators do not produce (depth > 3, capsule operands).",
          "DESIGN.md 3/C01"),
+ "C03": ("algebraic-law monitor over all pool pairs + model-set replay of ValueSet histories + hash-bucket invariant hook",
+         "Equality/hash/order laws are evaluated on ALL ordered pairs (and sampled triples) of collision-rich per-type pools; ValueSet histories are replayed against a model set after every step with the bucket invariant read through a tag-guarded hook; SetVal is run over every permutation of drawn member lists. Exploration level: the quantifier is over all values and histories.",
+         "Trusts the documented equality as modelled (model.NumEqualDoc, mon.ModelEqual), math/big text formatting, and the hook's copy of the buckets. Pools are finite; ordering demanded only for capsule-free wholly known members.",
+         "DESIGN.md 3/C03"),
 }
 PENDING_REASON = "check not built yet in this session (design in DESIGN.md section 3); not claimed until its monitor runs silently on the unchanged tree"
 
